@@ -149,12 +149,28 @@ type ByteEnv struct {
 	Var    types.Object          // the byte variable
 	Alias  func(e ast.Expr) bool // optional: other expressions denoting the same byte (e.g. buf[0])
 	Tables map[types.Object][]int64
+	// Prog, when set, lets the evaluation look into calls of repository
+	// functions whose result is determined by the byte (hexDigit(b)).
+	Prog *Program
+
+	cur   map[types.Object]int64 // values of tracked locals on the current path (booleans as 0/1)
+	unt   map[types.Object]bool
+	depth int
 }
+
+// symFlag marks a tracked value as "the input byte itself" (a copy of the
+// variable), as opposed to a constant that happens to have the same value.
+const symFlag int64 = 1 << 40
 
 func (env *ByteEnv) isVar(e ast.Expr) bool {
 	e = ast.Unparen(e)
 	if id, ok := e.(*ast.Ident); ok && env.Var != nil && env.Info.ObjectOf(id) == env.Var {
 		return true
+	}
+	if id, ok := e.(*ast.Ident); ok && env.cur != nil {
+		if n, ok := env.cur[env.Info.ObjectOf(id)]; ok && n&symFlag != 0 {
+			return true
+		}
 	}
 	if env.Alias != nil && env.Alias(e) {
 		return true
@@ -176,7 +192,15 @@ func (env *ByteEnv) evalInt(e ast.Expr, v int) (int64, bool) {
 	if c, ok := IntConst(env.Info, e); ok {
 		return c, true
 	}
+	if id, ok := e.(*ast.Ident); ok && env.cur != nil {
+		if n, ok := env.cur[env.Info.ObjectOf(id)]; ok {
+			return n &^ symFlag, true
+		}
+	}
 	if env.isVar(e) {
+		if call, ok := e.(*ast.CallExpr); ok && len(call.Args) == 1 {
+			return env.evalInt(call.Args[0], v) // conversion of a copy of the byte
+		}
 		return int64(v), true
 	}
 	switch x := e.(type) {
@@ -205,6 +229,10 @@ func (env *ByteEnv) evalInt(e ast.Expr, v int) (int64, bool) {
 				return l >> uint(r), true
 			case token.SHL:
 				return l << uint(r), true
+			case token.MUL:
+				return l * r, true
+			case token.XOR:
+				return l ^ r, true
 			}
 		}
 	case *ast.CallExpr:
@@ -212,6 +240,9 @@ func (env *ByteEnv) evalInt(e ast.Expr, v int) (int64, bool) {
 			if tv, ok := env.Info.Types[x.Fun]; ok && tv.IsType() {
 				return env.evalInt(x.Args[0], v)
 			}
+		}
+		if res, ok := env.evalCall(x, v); ok && len(res) >= 1 && res[0].known {
+			return res[0].n, true
 		}
 	}
 	return 0, false
@@ -225,6 +256,16 @@ func (env *ByteEnv) EvalBool(e ast.Expr, v int) (val, known bool) {
 		return constant.BoolVal(c), true
 	}
 	switch x := e.(type) {
+	case *ast.Ident:
+		if env.cur != nil {
+			if n, ok := env.cur[env.Info.ObjectOf(x)]; ok {
+				return n&^symFlag != 0, true
+			}
+		}
+	case *ast.CallExpr:
+		if res, ok := env.evalCall(x, v); ok && len(res) >= 1 && res[0].known {
+			return res[0].n != 0, true
+		}
 	case *ast.UnaryExpr:
 		if x.Op == token.NOT {
 			b, k := env.EvalBool(x.X, v)
@@ -285,36 +326,405 @@ func (env *ByteEnv) evalCond(c *Cond, v int) EdgeLabel {
 	return EdgeFalse
 }
 
+// bres is one result of an evaluated call.
+type bres struct {
+	n     int64
+	known bool
+}
+
+// evalAny evaluates an integer or boolean expression (booleans as 0/1).
+func (env *ByteEnv) evalAny(e ast.Expr, v int) (int64, bool) {
+	if t := env.Info.TypeOf(e); t != nil {
+		if b, ok := t.Underlying().(*types.Basic); ok && b.Info()&types.IsBoolean != 0 {
+			val, known := env.EvalBool(e, v)
+			if val {
+				return 1, known
+			}
+			return 0, known
+		}
+	}
+	n, ok := env.evalInt(e, v)
+	if ok && env.isVar(e) {
+		n |= symFlag
+	}
+	return n, ok
+}
+
+// evalCall evaluates a call of a repository function whose control flow and
+// results are determined by its arguments: the callee's graph is walked with
+// the parameters bound; any branch that cannot be decided makes the result
+// unknown.
+func (env *ByteEnv) evalCall(call *ast.CallExpr, v int) ([]bres, bool) {
+	if env.Prog == nil || env.depth >= 3 {
+		return nil, false
+	}
+	cf := Callee(env.Info, call)
+	if cf == nil {
+		return nil, false
+	}
+	fn := env.Prog.FuncOf(cf)
+	if fn == nil || fn.Decl.Body == nil || fn.Decl.Type.Params == nil {
+		return nil, false
+	}
+	bound := map[types.Object]int64{}
+	i := 0
+	for _, f := range fn.Decl.Type.Params.List {
+		for _, name := range f.Names {
+			if i < len(call.Args) {
+				if n, ok := env.evalAny(call.Args[i], v); ok {
+					bound[fn.Info().ObjectOf(name)] = n
+				}
+			}
+			i++
+		}
+	}
+	if i != len(call.Args) {
+		return nil, false
+	}
+	sub := &ByteEnv{Info: fn.Info(), Tables: map[types.Object][]int64{}, Prog: env.Prog, depth: env.depth + 1}
+	for k, t := range env.Tables {
+		sub.Tables[k] = t
+	}
+	g := fn.Graph()
+	unt := untracked(fn.Info(), fn.Decl.Body, nil)
+	x := g.Entry
+	store := bound
+	for steps := 0; steps < 400 && x != nil; steps++ {
+		sub.cur = store
+		if ret, ok := x.AST.(*ast.ReturnStmt); ok {
+			var out []bres
+			for _, r := range ret.Results {
+				n, known := sub.evalAny(r, 0)
+				out = append(out, bres{n &^ symFlag, known})
+			}
+			if len(ret.Results) == 0 {
+				return nil, false
+			}
+			return out, true
+		}
+		store = sub.step(x, store, 0, unt)
+		sub.cur = store
+		var next *V
+		if x.Cond != nil && x.Cond.Expr != nil {
+			take := sub.evalCond(x.Cond, 0)
+			if take == EdgeNone {
+				return nil, false
+			}
+			for _, e := range x.Succs {
+				if e.Label == take {
+					next = e.To
+				}
+			}
+		} else if len(x.Succs) == 1 {
+			next = x.Succs[0].To
+		} else if len(x.Succs) > 1 {
+			return nil, false
+		}
+		x = next
+	}
+	return nil, false
+}
+
+// untracked returns the variables whose values the exploration must not
+// track: those assigned inside function literals (other than skip) and those
+// whose address is taken.
+func untracked(info *types.Info, body ast.Node, skip *ast.FuncLit) map[types.Object]bool {
+	out := map[types.Object]bool{}
+	var inLit func(n ast.Node)
+	inLit = func(n ast.Node) {
+		ast.Inspect(n, func(m ast.Node) bool {
+			switch x := m.(type) {
+			case *ast.AssignStmt:
+				for _, l := range x.Lhs {
+					if id, ok := ast.Unparen(l).(*ast.Ident); ok {
+						out[info.ObjectOf(id)] = true
+					}
+				}
+			case *ast.IncDecStmt:
+				if id, ok := ast.Unparen(x.X).(*ast.Ident); ok {
+					out[info.ObjectOf(id)] = true
+				}
+			case *ast.RangeStmt:
+				for _, l := range []ast.Expr{x.Key, x.Value} {
+					if id, ok := l.(*ast.Ident); ok && x.Tok == token.ASSIGN {
+						out[info.ObjectOf(id)] = true
+					}
+				}
+			}
+			return true
+		})
+	}
+	ast.Inspect(body, func(n ast.Node) bool {
+		switch x := n.(type) {
+		case *ast.FuncLit:
+			if x != skip {
+				inLit(x.Body)
+			}
+		case *ast.UnaryExpr:
+			if x.Op == token.AND {
+				if id, ok := ast.Unparen(x.X).(*ast.Ident); ok {
+					out[info.ObjectOf(id)] = true
+				}
+			}
+		}
+		return true
+	})
+	return out
+}
+
+// step is the transfer function of the exploration: it returns the store
+// after executing vertex x (copy on write).
+func (env *ByteEnv) step(x *V, store map[types.Object]int64, v int, unt map[types.Object]bool) map[types.Object]int64 {
+	if x.AST == nil {
+		return store
+	}
+	var out map[types.Object]int64
+	set := func(obj types.Object, n int64, known bool) {
+		if obj == nil || obj == env.Var || unt[obj] {
+			return
+		}
+		if _, isVar := obj.(*types.Var); !isVar {
+			return
+		}
+		if old, had := store[obj]; had == known && (!known || old == n) && out == nil {
+			return
+		}
+		if out == nil {
+			out = make(map[types.Object]int64, len(store)+1)
+			for k, val := range store {
+				out[k] = val
+			}
+		}
+		if known {
+			out[obj] = n
+		} else {
+			delete(out, obj)
+		}
+	}
+	basicZero := func(obj types.Object) bool {
+		b, ok := obj.Type().Underlying().(*types.Basic)
+		return ok && b.Info()&(types.IsInteger|types.IsBoolean) != 0
+	}
+	switch n := x.AST.(type) {
+	case *ast.AssignStmt:
+		if len(n.Lhs) == len(n.Rhs) {
+			type upd struct {
+				obj   types.Object
+				n     int64
+				known bool
+			}
+			var ups []upd
+			for i, l := range n.Lhs {
+				id, ok := ast.Unparen(l).(*ast.Ident)
+				if !ok || id.Name == "_" {
+					continue
+				}
+				obj := env.Info.ObjectOf(id)
+				switch n.Tok {
+				case token.ASSIGN, token.DEFINE:
+					val, known := env.evalAny(n.Rhs[i], v)
+					ups = append(ups, upd{obj, val, known})
+				default:
+					old, ok1 := env.evalInt(id, v)
+					r, ok2 := env.evalInt(n.Rhs[i], v)
+					known := ok1 && ok2
+					var val int64
+					switch n.Tok {
+					case token.ADD_ASSIGN:
+						val = old + r
+					case token.SUB_ASSIGN:
+						val = old - r
+					case token.OR_ASSIGN:
+						val = old | r
+					case token.AND_ASSIGN:
+						val = old & r
+					case token.SHL_ASSIGN:
+						val = old << uint(r&63)
+					case token.SHR_ASSIGN:
+						val = old >> uint(r&63)
+					default:
+						known = false
+					}
+					ups = append(ups, upd{obj, val, known})
+				}
+			}
+			for _, u := range ups {
+				set(u.obj, u.n, u.known)
+			}
+		} else if len(n.Rhs) == 1 {
+			var res []bres
+			if call, ok := ast.Unparen(n.Rhs[0]).(*ast.CallExpr); ok {
+				res, _ = env.evalCall(call, v)
+			}
+			for i, l := range n.Lhs {
+				id, ok := ast.Unparen(l).(*ast.Ident)
+				if !ok || id.Name == "_" {
+					continue
+				}
+				if i < len(res) {
+					set(env.Info.ObjectOf(id), res[i].n, res[i].known)
+				} else {
+					set(env.Info.ObjectOf(id), 0, false)
+				}
+			}
+		}
+	case *ast.DeclStmt:
+		if gd, ok := n.Decl.(*ast.GenDecl); ok && gd.Tok == token.VAR {
+			for _, sp := range gd.Specs {
+				vs, ok := sp.(*ast.ValueSpec)
+				if !ok {
+					continue
+				}
+				for i, name := range vs.Names {
+					obj := env.Info.ObjectOf(name)
+					if obj == nil {
+						continue
+					}
+					if len(vs.Values) == len(vs.Names) {
+						val, known := env.evalAny(vs.Values[i], v)
+						set(obj, val, known)
+					} else if len(vs.Values) == 0 && basicZero(obj) {
+						set(obj, 0, true)
+					} else {
+						set(obj, 0, false)
+					}
+				}
+			}
+		}
+	case *ast.IncDecStmt:
+		if id, ok := ast.Unparen(n.X).(*ast.Ident); ok {
+			old, known := env.evalInt(id, v)
+			if n.Tok == token.INC {
+				old++
+			} else {
+				old--
+			}
+			set(env.Info.ObjectOf(id), old, known)
+		}
+	}
+	if x.Cond != nil && x.Cond.Range != nil {
+		for _, l := range []ast.Expr{x.Cond.Range.Key, x.Cond.Range.Value} {
+			if id, ok := l.(*ast.Ident); ok {
+				set(env.Info.ObjectOf(id), 0, false)
+			}
+		}
+	}
+	if out == nil {
+		return store
+	}
+	return out
+}
+
+func storeKey(x *V, store map[types.Object]int64) string {
+	if len(store) == 0 {
+		return fmt.Sprint(x.ID)
+	}
+	parts := make([]string, 0, len(store))
+	for k, n := range store {
+		parts = append(parts, fmt.Sprintf("%d=%d", k.Pos(), n))
+	}
+	sort.Strings(parts)
+	return fmt.Sprint(x.ID) + "|" + strings.Join(parts, ",")
+}
+
+// ByteState gives a site predicate access to the values known at a vertex.
+type ByteState struct {
+	env *ByteEnv
+	// Byte is the value of the byte variable on this exploration.
+	Byte int
+}
+
+// IsByte reports whether e denotes the input byte itself (the variable, an
+// alias, a conversion or a tracked copy of it).
+func (s *ByteState) IsByte(e ast.Expr) bool { return s.env.isVar(e) }
+
+// Tracked reports whether the exploration follows the values of obj.
+func (s *ByteState) Tracked(obj types.Object) bool { return s.env.unt != nil && !s.env.unt[obj] }
+
+// Int evaluates an integer expression in the current state.
+func (s *ByteState) Int(e ast.Expr) (int64, bool) { return s.env.evalInt(e, s.Byte) }
+
+// Bool evaluates a boolean expression in the current state.
+func (s *ByteState) Bool(e ast.Expr) (bool, bool) { return s.env.EvalBool(e, s.Byte) }
+
 // ReachSet computes, for every byte value v, whether `site` can be reached
 // from one of `starts` (inclusive) when every branch whose condition is decided by
 // Var = v is taken accordingly (other branches are explored both ways).
 // stop vertices end a path (e.g. reassignments of the variable).
+//
+// The exploration tracks the values of local variables that are assigned
+// constants or values computed from the byte (flags such as "escaped := true",
+// "d := hexDigit(b)"), so that decisions routed through such variables or
+// through small helper functions are followed; variables assigned inside
+// function literals or whose address is taken are never tracked.  When the
+// number of states explodes the tracking is switched off for that byte value,
+// which explores a superset of the paths.
 func (env *ByteEnv) ReachSet(g *Graph, starts []*V, site func(*V) bool, stop func(*V) bool) ByteSet {
+	return env.ReachSetState(g, starts, func(x *V, _ *ByteState) bool { return site(x) }, stop)
+}
+
+// ReachSetState is ReachSet with a site predicate that can evaluate
+// expressions in the state in which the vertex is reached (before the vertex
+// itself is executed).
+func (env *ByteEnv) ReachSetState(g *Graph, starts []*V, site func(*V, *ByteState) bool, stop func(*V) bool) ByteSet {
 	var out ByteSet
+	var skip *ast.FuncLit
+	var body ast.Node = g.Body
+	if g.Fn != nil && g.Fn.Decl != nil && g.Fn.Decl.Body != nil {
+		if g.Body != g.Fn.Decl.Body {
+			ast.Inspect(g.Fn.Decl.Body, func(n ast.Node) bool {
+				if l, ok := n.(*ast.FuncLit); ok && l.Body == g.Body {
+					skip = l
+				}
+				return true
+			})
+		}
+		body = g.Fn.Decl.Body
+	}
+	unt := untracked(env.Info, body, skip)
+	env.unt = unt
+	defer func() { env.unt = nil }()
+	type item struct {
+		x     *V
+		store map[types.Object]int64
+	}
 	for v := 0; v < 256; v++ {
-		seen := map[*V]bool{}
-		var stack []*V
-		push := func(x *V) {
-			if !seen[x] {
-				seen[x] = true
-				stack = append(stack, x)
+		track := true
+	again:
+		seen := map[string]bool{}
+		var stack []item
+		push := func(x *V, st map[types.Object]int64) {
+			if !track {
+				st = nil
+			}
+			k := storeKey(x, st)
+			if !seen[k] {
+				seen[k] = true
+				stack = append(stack, item{x, st})
 			}
 		}
 		for _, st := range starts {
 			if st != nil {
-				push(st)
+				push(st, nil)
 			}
 		}
 		found := false
 		for len(stack) > 0 && !found {
-			x := stack[len(stack)-1]
+			it := stack[len(stack)-1]
 			stack = stack[:len(stack)-1]
-			if site(x) {
+			x := it.x
+			env.cur = it.store
+			if site(x, &ByteState{env: env, Byte: v}) {
 				found = true
 				break
 			}
 			if stop != nil && stop(x) {
 				continue
+			}
+			store := it.store
+			if track {
+				store = env.step(x, it.store, v, unt)
+				env.cur = store
 			}
 			take := EdgeNone
 			if x.Cond != nil {
@@ -324,10 +734,115 @@ func (env *ByteEnv) ReachSet(g *Graph, starts []*V, site func(*V) bool, stop fun
 				if take != EdgeNone && e.Label != EdgeNone && e.Label != take {
 					continue
 				}
-				push(e.To)
+				push(e.To, store)
+			}
+			if track && len(seen) > 20000 {
+				track = false
+				env.cur = nil
+				goto again
 			}
 		}
+		env.cur = nil
 		out[v] = found
+	}
+	return out
+}
+
+// Traces computes, for every byte value, the set of emission traces of the
+// paths from starts to a stop vertex (or to the end of the function): emit
+// names what a vertex hands to the output in the state in which it is reached
+// ("" for nothing); a trace is the comma-separated sequence of these names.
+// Traces longer than maxLen items are cut off with "...".  Branches and local
+// variables are followed as in ReachSet.
+func (env *ByteEnv) Traces(g *Graph, starts []*V, emit func(*V, *ByteState) string, stop func(*V) bool, maxLen int) [256]map[string]bool {
+	var out [256]map[string]bool
+	var skip *ast.FuncLit
+	var body ast.Node = g.Body
+	if g.Fn != nil && g.Fn.Decl != nil && g.Fn.Decl.Body != nil {
+		if g.Body != g.Fn.Decl.Body {
+			ast.Inspect(g.Fn.Decl.Body, func(n ast.Node) bool {
+				if l, ok := n.(*ast.FuncLit); ok && l.Body == g.Body {
+					skip = l
+				}
+				return true
+			})
+		}
+		body = g.Fn.Decl.Body
+	}
+	unt := untracked(env.Info, body, skip)
+	env.unt = unt
+	defer func() { env.unt = nil; env.cur = nil }()
+	type item struct {
+		x     *V
+		store map[types.Object]int64
+		aux   string
+		n     int
+	}
+	for v := 0; v < 256; v++ {
+		out[v] = map[string]bool{}
+		track := true
+	again:
+		seen := map[string]bool{}
+		var stack []item
+		push := func(x *V, st map[types.Object]int64, aux string, n int) {
+			if !track {
+				st = nil
+			}
+			k := storeKey(x, st) + "#" + aux
+			if !seen[k] {
+				seen[k] = true
+				stack = append(stack, item{x, st, aux, n})
+			}
+		}
+		for _, st := range starts {
+			if st != nil {
+				push(st, nil, "", 0)
+			}
+		}
+		for len(stack) > 0 {
+			it := stack[len(stack)-1]
+			stack = stack[:len(stack)-1]
+			x := it.x
+			env.cur = it.store
+			if (stop != nil && stop(x)) || x == g.Exit || x == g.Panic {
+				out[v][it.aux] = true
+				continue
+			}
+			aux, n := it.aux, it.n
+			if tok := emit(x, &ByteState{env: env, Byte: v}); tok != "" {
+				if n < maxLen {
+					if aux != "" {
+						aux += ","
+					}
+					aux += tok
+					n++
+				} else if !strings.HasSuffix(aux, "...") {
+					aux += ",..."
+				}
+			}
+			store := it.store
+			if track {
+				store = env.step(x, it.store, v, unt)
+				env.cur = store
+			}
+			take := EdgeNone
+			if x.Cond != nil {
+				take = env.evalCond(x.Cond, v)
+			}
+			for _, e := range x.Succs {
+				if take != EdgeNone && e.Label != EdgeNone && e.Label != take {
+					continue
+				}
+				push(e.To, store, aux, n)
+			}
+			if track && len(seen) > 20000 {
+				track = false
+				env.cur = nil
+				out[v] = map[string]bool{}
+				goto again
+			}
+		}
+		env.cur = nil
 	}
 	return out
 }
